@@ -1694,7 +1694,13 @@ def check(run):
         "One population in three is read through symbolic links (type directories, id directories, <id>.json files "
         "replaced by links to the same content). Filter values include aware datetimes of other zones than UTC (the "
         "reference uses the instant the caller wrote) and pairs of filters that differ only in the TYPE of the value "
-        "(50 / '50', True / 'True'). Every answer is compared "
+        "(50 / '50', True / 'True'). "
+        "Generic dimensions: every query is asked twice (the second time after the rest of the session); 16 cases "
+        "per run are repeated in fresh interpreters under other time zones / another hash seed and must give the default "
+        "answers; `in` lists of up to 256 values, dotted paths of up to 65 steps, strings of 0 / 1 / 255 / 256 characters, "
+        "2^53 + 1, 10^21, UUID versions 1-8 per type, quotes / backslashes / U+007F / non-BMP in values, timestamps "
+        "with 0-7 fraction digits and years 0001 / 0999 / 9999; positional and keyword form of the query argument. "
+        "Every answer is compared "
         "with the model (memory: exact order; filesystem: multiset / exception class) and with the reference "
         "evaluation (timestamps as instants); conjunction = intersection and monotonicity are checked on the "
         "implementation's own answers for triples (A, B, A+B). Non-trivial = non-empty population and at least one filter.")
